@@ -28,12 +28,14 @@ for pid in ALL:
     })
 man = {
     "version": 1,
-    "setup_cmd": "cd sa && CARGO_NET_OFFLINE=true cargo build --release --offline",
+    "setup_cmd": "cd sa && CARGO_NET_OFFLINE=true cargo build --release --offline && cd ../mir && CARGO_NET_OFFLINE=true cargo +nightly build --release --offline",
     "hooks": {"guard": "o2o_verif", "enable": "none - static analysis reads /repo's source; nothing is compiled into o2o and no hook exists",
               "baseline_off_cmd": "cd /repo && cargo test --workspace --no-fail-fast --offline", "source_commits": [], "add_only": True},
     "engines": [
         {"name": "sa", "path": "sa/ + o2ov/", "serves_properties": [c["property_id"] for c in checks],
          "kind_free_text": "syn-2 front-end (astdump) dumping the syntax tree of /repo's current sources + Python rule engine (partial evaluator over finite discriminants, quote-template extraction, who-may-touch and shape rules)"},
+        {"name": "mir", "path": "mir/ + o2ov/mirfacts.py", "serves_properties": ["C16", "C19"],
+         "kind_free_text": "nightly rustc_private driver injected with RUSTC_WORKSPACE_WRAPPER under `cargo +nightly check` (both feature configurations): dumps type-resolved call and Assert terminators of o2o-impl's MIR; used by the thorough tier as a completeness cross-check of the syntactic site enumerations (nothing is executed)"},
     ],
     "checks": checks,
     "not_applicable": na,
